@@ -5,6 +5,7 @@ import (
 	"context"
 	"encoding/json"
 	"fmt"
+	"sort"
 	"strings"
 
 	"github.com/jrhy/s3db/kv"
@@ -26,7 +27,21 @@ type c18Case struct {
 	Pass int    `json:"pass"`
 }
 
-var c18Pass = [][]byte{nil, []byte("k"), []byte("a fairly long passphrase, forty bytes ok")}
+var c18Pass = [][]byte{nil, []byte("k"), []byte("a fairly long passphrase, forty bytes ok"), []byte("ends with a line terminator\r\n")}
+
+// c18Near derives passphrases that differ from p only marginally (what a "normalising" key derivation would
+// conflate): each of them is a DIFFERENT passphrase and must be rejected.
+func c18Near(p []byte) [][]byte {
+	cat := func(a, b []byte) []byte { return append(append([]byte{}, a...), b...) }
+	out := [][]byte{cat(p, []byte("\n")), cat(p, []byte("\r\n")), cat(p, []byte("\r")), cat(p, []byte(" ")), cat(p, []byte{0}), cat([]byte(" "), p), cat(p, p), bytes.ToUpper(p), bytes.TrimRight(p, "\r\n"), bytes.TrimSpace(p)}
+	var res [][]byte
+	for _, o := range out {
+		if !bytes.Equal(o, p) {
+			res = append(res, o)
+		}
+	}
+	return res
+}
 
 func init() {
 	All["C18"] = &Check{Level: "exploration", Run: c18Run}
@@ -38,9 +53,9 @@ func c18Run(r *engine.Run) int {
 	if r.Thorough() {
 		maxLen = 300
 	}
-	r.Rule = fmt.Sprintf("plaintext lengths 0..%d x 3 passphrases (empty, 1 byte, 40 bytes): round trip, determinism, every single-bit flip of the ciphertext, every truncation, 1-byte extension, the two other passphrases, legacy-format ciphertext of the same plaintext; plus end-to-end runs through kv.Open with the encryptor (plaintext windows in stored objects, object-name reuse, wrong passphrase). Non-trivial = every corruption / length evaluated", maxLen)
+	r.Rule = fmt.Sprintf("plaintext lengths 0..%d x 4 passphrases (empty, 1 byte, 40 bytes, one ending in CR LF): round trip, determinism, every single-bit flip of the ciphertext, every truncation, 1-byte extension, the other passphrases and up to 10 passphrases that differ marginally (trailing LF / CR LF / CR / blank / NUL, leading blank, doubled, other case, trimmed) in both directions, legacy-format ciphertext of the same plaintext; plus end-to-end runs through kv.Open with the encryptor (plaintext windows in stored objects, object-name reuse, wrong passphrase). Non-trivial = every corruption / length evaluated", maxLen)
 	r.Bounds["max_len"] = maxLen
-	r.Bounds["passphrases"] = 3
+	r.Bounds["passphrases"] = len(c18Pass)
 	r.Assumptions = []string{"confidentiality is decided only in the observable sense of the property (no plaintext bytes, authenticated, deterministic), not as a cryptographic proof"}
 	var cases []json.RawMessage
 	for p := range c18Pass {
@@ -49,6 +64,9 @@ func c18Run(r *engine.Run) int {
 		}
 		for _, n := range []int{1, 5, 40} {
 			cases = append(cases, engine.J(c18Case{Kind: "e2e", Len: n, Pass: p}))
+		}
+		if p > 0 {
+			cases = append(cases, engine.J(c18Case{Kind: "e2e-merge", Len: 12, Pass: p}))
 		}
 	}
 	n := 0
@@ -76,6 +94,10 @@ func c18Worker(raw json.RawMessage) *engine.Result {
 	res := &engine.Result{}
 	pass := c18Pass[c.Pass]
 	enc := kv.V1NodeEncryptor(pass)
+	if c.Kind == "e2e-merge" {
+		c18Merge(res, c)
+		return res
+	}
 	if c.Kind == "e2e" {
 		c18E2E(res, c)
 		return res
@@ -137,6 +159,19 @@ func c18Worker(raw json.RawMessage) *engine.Result {
 		}
 		res.Execs++
 		res.NontrivN++
+	}
+	// ... and passphrases that differ only marginally (trailing line terminator, blank, NUL, case, doubling), both ways
+	for _, pw := range c18Near(pass) {
+		if out, err := kv.V1NodeEncryptor(pw).Decrypt("node/x", ct); err == nil {
+			res.Violate("near-passphrase-accepted", "ciphertext under %q decrypts under the different passphrase %q to %x [%s]", pass, pw, out, where)
+		}
+		if ct2, err := kv.V1NodeEncryptor(pw).Encrypt("node/x", plain); err == nil {
+			if out, err := enc.Decrypt("node/x", ct2); err == nil {
+				res.Violate("near-passphrase-accepted", "ciphertext under %q decrypts under the different passphrase %q to %x [%s]", pw, pass, out, where)
+			}
+		}
+		res.Execs += 2
+		res.NontrivN += 2
 	}
 	// legacy box format stays readable, and is authenticated too
 	leg, err := kv.VerifLegacySeal(pass, plain)
@@ -383,4 +418,108 @@ func c18Faults(res *engine.Result, c c18Case, secrets []string) {
 		run(k, engine.FailBefore)
 		run(k, engine.ApplyThenFail)
 	}
+}
+
+// c18Merge: two writers commit side by side on an encrypted prefix (two unmerged versions, multi-level trees).
+// Then, for EVERY node object in turn, one bit of it is flipped and the prefix is opened the ordinary way (a
+// listing open that merges the two versions) and read completely. A node that fails authentication must surface
+// as an error of the open or of a read; it must never make rows disappear quietly.
+func c18Merge(res *engine.Result, c c18Case) {
+	ctx := context.Background()
+	where := fmt.Sprintf("e2e-merge entries=2x%d passphrase#%d", c.Len, c.Pass)
+	base := engine.NewBucket()
+	mkcfg := func() kv.Config {
+		return kv.Config{
+			Storage:       &kv.S3BucketInfo{EndpointURL: "verif-kv", BucketName: "bk", Prefix: "enc"},
+			KeysLike:      "",
+			ValuesLike:    "",
+			BranchFactor:  4,
+			NodeEncryptor: kv.V1NodeEncryptor(c18Pass[c.Pass]),
+		}
+	}
+	{
+		w := engine.NewWorldOn(base)
+		w.SetClock(engine.T(1000))
+		h := base.Handle("enc")
+		var dbs []*kv.DB
+		for i := 0; i < 2; i++ { // both opened before either commits: the versions do not descend from each other
+			db, err := kv.Open(ctx, h, mkcfg(), kv.OpenOptions{}, engine.T(1+i))
+			if err != nil {
+				res.Violate("open-failed", "%v [%s]", err, where)
+				w.Close()
+				return
+			}
+			dbs = append(dbs, db)
+		}
+		for wi, db := range dbs {
+			for i := 0; i < c.Len; i++ {
+				must(db.Set(ctx, engine.T(10+i+100*wi), fmt.Sprintf("w%d-key-%03d", wi, i), fmt.Sprintf("w%d-value-%03d", wi, i)))
+			}
+			if _, err := db.Commit(ctx); err != nil {
+				res.Violate("commit-failed", "%v [%s]", err, where)
+			}
+			db.Cancel()
+		}
+		w.Close()
+	}
+	objs := base.Snapshot()
+	var nodes []string
+	for k := range objs {
+		if strings.Contains(k, "/node/") {
+			nodes = append(nodes, k)
+		}
+	}
+	sort.Strings(nodes)
+	readAll := func(b *engine.Bucket) (int, error) {
+		w := engine.NewWorldOn(b)
+		defer w.Close()
+		w.SetClock(engine.T(2000))
+		db, err := kv.Open(ctx, b.Handle("rd"), mkcfg(), kv.OpenOptions{ReadOnly: true}, engine.T(50))
+		if err != nil {
+			return 0, err
+		}
+		defer db.Cancel()
+		n := 0
+		for wi := 0; wi < 2; wi++ {
+			for i := 0; i < c.Len; i++ {
+				var v string
+				ok, err := db.Get(ctx, fmt.Sprintf("w%d-key-%03d", wi, i), &v)
+				if err != nil {
+					return n, err
+				}
+				if ok && v == fmt.Sprintf("w%d-value-%03d", wi, i) {
+					n++
+				}
+			}
+		}
+		return n, nil
+	}
+	if n, err := readAll(engine.NewBucketFrom(objs)); err != nil || n != 2*c.Len {
+		res.Violate("merge-read-back", "uncorrupted: the merging open reads %d of %d entries (err %v) [%s]", n, 2*c.Len, err, where)
+		return
+	}
+	for _, node := range nodes {
+		for _, bit := range []int{0, len(objs[node])*8 - 1, len(objs[node]) * 4} {
+			m := map[string][]byte{}
+			for k, v := range objs {
+				m[k] = v
+			}
+			body := append([]byte{}, objs[node]...)
+			body[bit/8] ^= 1 << uint(bit%8)
+			m[node] = body
+			n, err := readAll(engine.NewBucketFrom(m))
+			res.Execs++
+			res.NontrivN++
+			if err == nil && n != 2*c.Len {
+				res.Violate("corrupted-node-drops-rows-quietly", "with bit %d of %s flipped the merging open and all reads succeed but only %d of %d entries are returned [%s]", bit, node, n, 2*c.Len, where)
+				return
+			}
+			if err == nil {
+				res.Violate("corrupted-node-accepted", "with bit %d of %s flipped everything still reads without error [%s]", bit, node, where)
+				return
+			}
+		}
+	}
+	res.Outcome = "e2e-merge"
+	res.Data = engine.J(map[string]interface{}{"kind": "e2e-merge", "entries": 2 * c.Len, "node_objects": len(nodes), "passphrase": c.Pass})
 }
